@@ -623,6 +623,11 @@ class Gen:
                                (src.line_of(fn["s"]), src.line_of(fn["e"]))))
         for a in kids(fn, kind="Attr"):
             ed.delete(a["s"], a["e"])
+        # restricted visibility (`pub(super)`, `pub(crate)`) is meaningless in the single generated file
+        v0 = max([a["e"] for a in kids(fn, kind="Attr")] + [fn["s"]])
+        mvis = re.search(rb"pub\s*\([^)]*\)", src.bytes[v0:sig["s"]])
+        if mvis:
+            ed.replace(v0 + mvis.start(), v0 + mvis.end(), "pub", ("rule", "vis"))
         # -- signature: named return, parameter type substitutions
         out = kid(sig, "output")
         as_name = [o[3:] for o in it["opts"] if o.startswith("as=")]
@@ -720,6 +725,9 @@ class Gen:
             self.emit("\n}\n", ("glue",))
         else:
             self.emit("\n", ("glue",))
+        for text, origin in getattr(self, "_pending_global", []):
+            self.emit(text, origin)
+        self._pending_global = []
         # generated closure fns
         if not self.vac:
             for text, origin in getattr(self, "_pending", []):
@@ -886,6 +894,19 @@ class Gen:
                 ed.replace(C["e"], n["e"], ")", ("rule", "R22"))
                 self.fired("R22")
 
+        # R8': format! whose value IS the result: replaced by a generated external_body helper whose `ensures`
+        # is derived mechanically from the format literal ({} / {name} of str-like args, {:02x} of u8)
+        for n in walk(body):
+            if any(a0 <= n["s"] and n["e"] <= b0 for a0, b0 in dead):
+                continue
+            if n["k"] == "Macro" and n["a"]["mac"] == "format":
+                args = kids(n, "macarg")
+                if not args or args[0]["k"] != "Lit" or not args[0]["a"]["lit"].startswith('"'):
+                    raise Inconclusive(f"unsupported construct: format! without a plain string literal at {src.rel}:{src.line_of(n['s'])}")
+                name, call_args = self.format_helper(args[0]["a"]["lit"], [T(a) for a in args[1:]], src, n)
+                ed.replace(n["s"], n["e"], f"{name}({', '.join(call_args)})", ("rule", "R8'"))
+                self.fired("R8'")
+
         # R16: `E.map_err(F)?`  ->  `(match E { Ok(v) => v, Err(e) => return Err(F(e)) })`   (F a path)
         for n in walk(body):
             if n["k"] == "Try" and kid(n, "expr")["k"] == "MethodCall" and kid(n, "expr")["a"]["method"] == "map_err":
@@ -1047,15 +1068,34 @@ class Gen:
         # R11: trait-method -> free fn via checked forwarding impls
         for meth, func in it["callmap"]:
             hit = 0
+            want_rc = None
+            mm = re.match(r"^(\w+)\[(.*)\]$", meth)
+            if mm:
+                meth, want_rc = mm.group(1), norm(mm.group(2))
             for n in walk(body):
                 if n["k"] == "MethodCall" and n["a"]["method"] == meth and not kids(n, "arg"):
                     rc = kid(n, "receiver")
+                    if want_rc is not None and norm(T(rc)) != want_rc:
+                        continue
                     ed.insert(n["s"], func + "(", ("rule", "R11"))
                     ed.replace(rc["e"], n["e"], ")", ("rule", "R11"))
                     hit += 1
                     self.fired("R11")
             if not hit:
                 raise Inconclusive(f"lost anchor: {it['name']}: no call .{meth}()")
+
+        # R25: `reveal_strlit` for every plain string literal of the body (a reveal, not an assumption)
+        lits = []
+        for n in walk(body):
+            if n["k"] == "Lit" and n["a"]["lit"].startswith('"') and n["a"]["lit"] not in lits:
+                if any(a0 <= n["s"] and n["e"] <= b0 for a0, b0 in dead):
+                    continue
+                if n["p"]["k"] == "Macro" and n["p"]["a"]["mac"] in ("format", "anyhow", "anyhow::anyhow", "bail", "anyhow::bail", "debug", "trace"):
+                    continue
+                lits.append(n["a"]["lit"])
+        if lits and not it["external"]:
+            ed.insert(body["s"] + 1, " proof { " + " ".join(f"reveal_strlit({l});" for l in lits) + " }", ("rule", "R25"))
+            self.fired("R25")
 
         # @around
         stmts = [n for n in walk(body) if n["r"] == "stmt"]
@@ -1224,6 +1264,81 @@ class Gen:
             ed.insert(P["s"], f"{{\n            let {x} = &{S}[{iv}];\n            if !(", ("rule", "R6"))
             ed.replace(P["e"], n["e"], f") {{ return false; }}\n            {iv} += 1;\n        }}\n        true", ("rule", "R6"))
         self.fired("R6")
+
+    def format_helper(self, lit, pos_args, src, n):
+        """-> (helper name, call argument texts); emits the helper once per distinct literal"""
+        body = lit[1:-1]
+        # rust string escapes
+        out = []
+        i = 0
+        while i < len(body):
+            c = body[i]
+            if c == "\\":
+                d = body[i + 1]
+                m = {"n": "\n", "t": "\t", "r": "\r", "\\": "\\", '"': '"', "'": "'", "0": "\0"}
+                if d not in m:
+                    raise Inconclusive(f"unsupported construct: escape \\{d} in format literal at {src.rel}:{src.line_of(n['s'])}")
+                out.append(m[d])
+                i += 2
+            else:
+                out.append(c)
+                i += 1
+        text = "".join(out)
+        pieces = []  # ("lit", str) | ("arg", idx, spec)
+        params, call_args = [], []
+        cur = ""
+        i = 0
+        npos = 0
+        while i < len(text):
+            if text.startswith("{{", i):
+                cur += "{"; i += 2
+            elif text.startswith("}}", i):
+                cur += "}"; i += 2
+            elif text[i] == "{":
+                j = text.index("}", i)
+                inner = text[i + 1:j]
+                nm, _, fmtspec = inner.partition(":")
+                if cur:
+                    pieces.append(("lit", cur)); cur = ""
+                if nm == "":
+                    if npos >= len(pos_args):
+                        raise Inconclusive("unsupported construct: format! placeholder without argument")
+                    arg = pos_args[npos]; npos += 1
+                elif re.match(r"^[A-Za-z_]\w*$", nm):
+                    arg = nm
+                else:
+                    raise Inconclusive(f"unsupported construct: format placeholder {{{inner}}}")
+                k = len(params)
+                if fmtspec == "":
+                    params.append(f"a{k}: &str"); call_args.append(f"&{arg}"); pieces.append(("arg", f"a{k}@"))
+                elif fmtspec == "02x":
+                    params.append(f"a{k}: u8"); call_args.append(f"{arg}"); pieces.append(("arg", f"hex2(a{k})"))
+                else:
+                    raise Inconclusive(f"unsupported construct: format spec {{:{fmtspec}}} at {src.rel}:{src.line_of(n['s'])}")
+                i = j + 1
+            else:
+                cur += text[i]; i += 1
+        if cur:
+            pieces.append(("lit", cur))
+        key = hashlib.sha256(lit.encode()).hexdigest()[:8]
+        name = f"__fmt_{key}"
+        if name not in self._consts:
+            self._consts.add(name)
+            def charlit(ch):
+                return {"\\": "'\\\\'", "'": "'\\''", "\n": "'\\n'", "\t": "'\\t'", "\r": "'\\r'", "\0": "'\\0'"}.get(ch, f"'{ch}'")
+            terms = []
+            for p in pieces:
+                if p[0] == "lit":
+                    terms.append("seq![" + ", ".join(charlit(ch) for ch in p[1]) + "]")
+                else:
+                    terms.append(p[1])
+            spec = " + ".join(terms) if terms else "Seq::<char>::empty()"
+            self._pending_global = getattr(self, "_pending_global", [])
+            self._pending_global.append((
+                f"// R8': format!({lit}, ..) — ensures derived from the literal; core::fmt semantics of {{}} (str) and {{:02x}} (u8) assumed\n"
+                f"#[verifier::external_body]\npub fn {name}({', '.join(params)}) -> (r: String)\n    ensures r@ =~= {spec}\n{{ unimplemented!() }}\n",
+                ("trusted", f"format helper {name} for {lit}")))
+        return name, call_args
 
     # ---- forwarding impl checks (R11) ---------------------------------------------------------
     def check_forwards(self):
